@@ -2,7 +2,7 @@
 from mirq.anchors import POOL_JOIN, POOL_EXEC, THREAD_SPAWN
 from mirq.prov import subterms, term_str, strip_wrap, strip_clone
 from mirq.report import short, AnchorMissing
-from rules.queue import close_body, dispatch_entries, _sender_slot_send_sites
+from rules.queue import close_body, dispatch_entries, dispatch_enqueue_events
 
 
 def _is_slot(ctx, t, fld):
@@ -16,7 +16,7 @@ def st1_stop_is_close_plus_join(ctx, rep, entry="stop"):
     rep.note_fn(stop.path)
     takes = close_body(ctx)
     take_bodies = {s.body.path for s in takes}
-    pe = ctx.paths(stop)
+    pe = ctx.paths(stop, inline=True)
     rep.stats["paths"] += len(pe.paths)
     lr = ctx.lr(stop)
     fn = short(stop.path)
@@ -30,9 +30,9 @@ def st1_stop_is_close_plus_join(ctx, rep, entry="stop"):
         closes = []
         for e in evs:
             cb = ctx.prog.callee_body(e.site) if e.site is not None else None
-            if cb is not None and (set(ctx.sync_reach([cb])) & take_bodies):
+            if e.ck in ("std::option::Option::take",) and _is_slot(ctx, e.args[0], A.f_tx):
                 closes.append(e)
-            elif e.ck in ("std::option::Option::take",) and _is_slot(ctx, e.args[0], A.f_tx):
+            elif cb is not None and not e.inlined and (set(ctx.sync_reach([cb])) & take_bodies):
                 closes.append(e)
         ptakes = [e for e in evs if e.ck in ("std::option::Option::take", "std::mem::take") and _is_slot(ctx, e.args[0], A.f_pool)]
         joins = [e for e in evs if e.ck in POOL_JOIN]
@@ -44,7 +44,7 @@ def st1_stop_is_close_plus_join(ctx, rep, entry="stop"):
         if not ptakes:
             continue
         tk = ptakes[0]
-        may, must = lr.held_at(tk.bb)
+        may, must = ctx.held_for_event(tk)
         rep.check(A.lock_id(A.f_pool) in must, R, "pool-take-under-lock:" + fn, ctx.where(stop, tk.bb), "pool slot emptied under its lock", "pool slot emptied without its lock")
         some = None
         for k, v in p.decisions:
@@ -57,7 +57,7 @@ def st1_stop_is_close_plus_join(ctx, rep, entry="stop"):
             good = len(joins) == 1 and strip_wrap(joins[0].args[0]) == ("vfield", tk.result, "Some", 0)
             rep.check(good, R, "joins-taken-pool:" + fn, ctx.where(stop, joins[0].bb) if joins else ctx.where(stop), "path [%s] joins the pool it took" % p.describe(), "path [%s]: %d join call(s); stop() is not a barrier" % (p.describe(), len(joins)))
             for j in joins:
-                may, must = lr.held_at(j.bb)
+                may, must = ctx.held_for_event(j)
                 rep.check(not may, R, "join-without-store-lock:" + fn, ctx.where(stop, j.bb), "the join runs with no store lock held", "the join runs while holding %s, which the joined threads need" % sorted(may))
         else:
             rep.check(not joins, R, "no-join-without-pool:" + fn, ctx.where(stop), "nothing to join when the pool is already gone (second stop returns immediately)", "join on a path without a pool")
@@ -73,21 +73,15 @@ def st1_stop_is_close_plus_join(ctx, rep, entry="stop"):
 def st2_closed_means_err(ctx, rep):
     R = "ST2"
     A = ctx.A
-    send_sites = {s.body.path for s, _ in _sender_slot_send_sites(ctx)}
     n = 0
     for e in dispatch_entries(ctx):
-        if e.path not in send_sites:
-            # thin wrapper: must delegate to a checked entry
-            reach = ctx.sync_reach([e])
-            rep.check(bool(set(reach) & send_sites), R, "delegates:" + short(e.path), ctx.where(e), "delegates to a checked dispatch body", "does not reach a dispatch body")
-            continue
         rep.note_fn(e.path)
-        pe = ctx.paths(e)
+        pe = ctx.paths(e, inline=True)
         rep.stats["paths"] += len(pe.paths)
         for p in pe.paths:
             if p.end != "return":
                 continue
-            slot = [v for (k, v) in p.decisions if k[0] == "discr" and _is_slot(ctx, k[1], A.f_tx)]
+            slot = [v for (k, v) in p.decisions if k[0] == "discr" and k[1][0] != "lockres" and _is_slot(ctx, k[1], A.f_tx)]
             if not slot:
                 rep.bad(R, "slot-not-tested:" + short(e.path), ctx.where(e), "path [%s] does not test whether the store is closed" % p.describe())
                 continue
@@ -95,9 +89,9 @@ def st2_closed_means_err(ctx, rep):
                 n += 1
                 ret = p.ret
                 is_err = ret[0] == "agg" and ret[1].endswith("Result::Err") and any(st[0] == "agg" and st[1].endswith("StoreError::DispatchError") for st in subterms(ret))
-                enq = [ev for ev in p.calls() if ev.site is not None and (A.is_send_wrapper_call(ev.site) or ev.ck in POOL_EXEC)]
+                enq = [ev for ev in p.calls() if ev.site is not None and not ev.inlined and (A.is_send_wrapper_call(ev.site) or ev.ck in POOL_EXEC)]
                 rep.check(is_err and not enq, R, "closed-rejects:" + short(e.path), ctx.where(e), "closed store: returns Err(DispatchError), nothing enqueued", "closed store: returns %s with %d enqueue/submit(s)" % (term_str(ret), len(enq)))
-    rep.floor(R, "closed-store paths", n, 2)
+    rep.floor(R, "closed-store paths", n, 3)
 
 
 def st3_loop_exits(ctx, rep):
@@ -185,7 +179,7 @@ def st5_idempotent(ctx, rep):
     takes = close_body(ctx)
     for b in {s.body.path: s.body for s in takes}.values():
         rep.note_fn(b.path)
-        pe = ctx.paths(b)
+        pe = ctx.paths(b, inline=True)
         rep.stats["paths"] += len(pe.paths)
         n = 0
         for p in pe.paths:
@@ -195,6 +189,6 @@ def st5_idempotent(ctx, rep):
             v = [vv for (k, vv) in p.decisions if k == ("discr", tk[0].result) or k == ("discr", tk[0].result[1])]
             if v and v[0].lstrip("*") == "None":
                 n += 1
-                blocking = [e for e in p.calls() if e.site is not None and (A.is_send_wrapper_call(e.site) or e.ck in POOL_JOIN)]
+                blocking = [e for e in p.calls() if e.site is not None and not e.inlined and (A.is_send_wrapper_call(e.site) or e.ck in POOL_JOIN)]
                 rep.check(not blocking, R, "second-close-does-nothing:" + short(b.path), ctx.where(b), "already closed: no queue operation", "already closed but performs %s" % [e.ck for e in blocking])
         rep.floor(R, "already-closed paths", n, 1, ctx.where(b))
